@@ -10,6 +10,7 @@ import shutil
 import core
 import emu
 import histgen
+import obs
 import pv
 import refemu
 import tracegen
@@ -94,7 +95,29 @@ def gen_case(chk, i):
         marks = {7: "single", 42: "stack"}
         labels = {7: {1: "one", 2: "two"}, 42: {3: "three"}}
     g = histgen.Gen(rng, desc, enabled, marks)
-    g.run(rng.choice([40, 120]))
+    tm = [m for m in "V6" if m in enabled]
+    if tm and i % 2 == 1:
+        # type matrix: every process registers, in its own order, some task types
+        # whose labels other processes use as well and some of its own, then the
+        # history goes on and runs tasks of them
+        g.run(rng.choice([20, 40]))
+        shared = ["solve", "exchange halo", "io", "reduce"]
+        seen_procs = set()
+        for th in g.threads():
+            pk = (th.key[0], th.key[1])
+            if pk in seen_procs or not th.active or th.out_of_cpu:
+                continue
+            seen_procs.add(pk)
+            mc = rng.choice(tm)
+            labs = rng.sample(shared, rng.randint(1, 3)) + ["own %d.%d" % (th.key[1], n) for n in range(rng.randint(0, 2))]
+            rng.shuffle(labs)
+            for lab in labs:
+                ty = g.next_type; g.next_type += 1
+                g.emit(th.key, mc + "Yc", obs.u32(ty) + lab.encode() + b"\0", True)
+        g.w = dict(g.w, task=g.w.get("task", 1) * 4)
+        g.run(rng.choice([80, 200]))
+    else:
+        g.run(rng.choice([40, 120]))
     hist = g.finish(close_regions=True)
     return {"desc": desc, "enabled": enabled, "marks": marks, "labels": labels, "hist": hist,
             "breakdown": (kind == 2 and any(m in enabled for m in "V6"))}
